@@ -593,7 +593,10 @@ func r05d(c *core.Ctx) {
 		for _, call := range core.Calls(s.Fn) {
 			if strings.HasSuffix(core.CallName(call), ").Write") {
 				wargs := call.Common().Args
-				if derivesFromAny(wargs[len(wargs)-1], core.Origins(args[0], core.OriginOpts{})) && core.InstrDominates(s.Call, call) {
+				// the stamp precedes the write: it dominates it, or (arms merged before one common Write) the write is
+				// reached from the stamp and the stamp cannot be reached again from the write
+				if derivesFromAny(wargs[len(wargs)-1], core.Origins(args[0], core.OriginOpts{})) &&
+					(core.InstrDominates(s.Call, call) || reachableFrom(s.Fn, s.Call, call) && !reachableFrom(s.Fn, call, s.Call)) {
 					wrote = true
 				}
 			}
